@@ -55,8 +55,9 @@ Proof.
   - destruct (rank pz (ph s)) as [a|] eqn:R1; [|discriminate].
     destruct (rank pz to) as [b|] eqn:R2; [|discriminate]. destruct (a <? b); [|discriminate].
     intros E. inversion E; subst. cbn [ph]. rewrite (rank_weight _ _ _ R1), (rank_weight _ _ _ R2). lia.
-  - destruct (running (ph s)) eqn:R; [|discriminate]. intros E. inversion E; subst. cbn [ph].
-    rewrite (running_weight _ _ R). cbn. lia.
+  - destruct (running (ph s)) eqn:R; [|discriminate].
+    destruct (ph s) eqn:P; cbn in R; try discriminate; intros E; inversion E; subst; cbn; destruct pz; cbn; lia.
+  - destruct (ph s) eqn:P; try discriminate. intros E. inversion E; subst. cbn. lia.
   - destruct (running (ph s)) eqn:R; [|discriminate]. intros E. inversion E; subst. cbn [ph].
     rewrite (running_weight _ _ R). cbn. lia.
   - destruct (ph s) eqn:P; try discriminate. intros E. inversion E; subst. cbn. lia.
@@ -182,7 +183,7 @@ Proof.
   - destruct (step y2 a) as [y3|] eqn:E; [|discriminate].
     destruct S as (S1 & S2 & S3 & S4).
     destruct a; cbn [is_shutdown negb run].
-    1-6: cbn [step target] in *.
+    1-7: cbn [step target] in *.
     + (* Accept *) destruct (lopen (sv y2)); [|discriminate]. rewrite S4, S1.
       destruct (find_s i (ss (sv y2))); [discriminate|]. inversion E; subst y3; clear E.
       eapply IH; [|exact R]. cbn. rewrite S2, S3. repeat split; auto.
@@ -194,6 +195,9 @@ Proof.
       inversion E; subst y3; clear E. eapply IH; [|exact R]. cbn. rewrite S2. repeat split; auto.
     + rewrite S1, S3. destruct (find_s i (ss (sv y2))) as [s|]; [|discriminate].
       destruct (sess_step (pr (sv y2)) s (Quit i)) as [[[s' inc] dec]|]; [|discriminate].
+      inversion E; subst y3; clear E. eapply IH; [|exact R]. cbn. rewrite S2. repeat split; auto.
+    + rewrite S1, S3. destruct (find_s i (ss (sv y2))) as [s|]; [|discriminate].
+      destruct (sess_step (pr (sv y2)) s (Purge i)) as [[[s' inc] dec]|]; [|discriminate].
       inversion E; subst y3; clear E. eapply IH; [|exact R]. cbn. rewrite S2. repeat split; auto.
     + rewrite S1, S3. destruct (find_s i (ss (sv y2))) as [s|]; [|discriminate].
       destruct (sess_step (pr (sv y2)) s (Abort i)) as [[[s' inc] dec]|]; [|discriminate].
@@ -222,20 +226,122 @@ Proof.
   - exists y0. destruct S as (S1 & S2 & _). auto.
 Qed.
 
-(** Concretely: whatever the shutdown flags, QUIT is possible in every running position; a
-    message in flight is then stored and acknowledged, marked POP3 deletions are applied. *)
+(** Concretely: whatever the shutdown flags, QUIT is possible in every running position. SMTP: a
+    message whose DATA was accepted is stored and acknowledged first. POP3 in TRANSACTION state:
+    the session enters UPDATE, where removing the marked messages is possible whatever the flags
+    and is what ends the session. *)
 Theorem inflight_completes :
   forall y i s, find_s i (ss (sv y)) = Some s -> running (ph s) = true ->
-    exists y', step y (Quit i) = Some y' /\
-      find_s i (ss (sv y')) =
-        Some (mkS Ending
-                  (match ph s with SData | SBody => S (stored s) | _ => stored s end)
-                  (match ph s with PDele => 0 | _ => left s end)).
+    exists y' s', step y (Quit i) = Some y' /\ find_s i (ss (sv y')) = Some s' /\
+      stored s' = (match ph s with SData | SBody => S (stored s) | _ => stored s end) /\
+      (ph s' = Ending \/
+       (ph s' = PUpdate /\ exists y'' s'', step y' (Purge i) = Some y'' /\ find_s i (ss (sv y'')) = Some s'' /\
+          ph s'' = Ending /\ left s'' = if marked s then 0 else left s)).
 Proof.
-  intros y i s F Rn. cbn [step target]. rewrite F. cbn [sess_step]. rewrite Rn.
-  eexists. split; [reflexivity|]. cbn [sv ss].
-  revert F. generalize (ss (sv y)). induction l as [|[k x] l IH]; cbn [find_s upd_s]; [discriminate|].
-  destruct (Nat.eqb k i) eqn:E; cbn [find_s]; rewrite E; auto.
+  intros y i s F Rn.
+  assert (U : forall (xs : list (nat * session)) x, find_s i xs <> None -> find_s i (upd_s i x xs) = Some x).
+  { induction xs as [|[k z] t IH]; cbn [find_s upd_s]; [congruence|]. intros x.
+    destruct (Nat.eqb k i) eqn:E; cbn [find_s]; rewrite E; auto. }
+  cbn [step target]. rewrite F. cbn [sess_step]. rewrite Rn.
+  destruct (ph s) eqn:P; cbn in Rn; try discriminate.
+  all: try (eexists; eexists; split; [reflexivity|]; cbn [sv ss]; split; [apply U; congruence|];
+            split; [reflexivity|]; left; reflexivity).
+  all: eexists; eexists; split; [reflexivity|]; cbn [sv ss]; split; [apply U; congruence|];
+       split; [reflexivity|]; right; split; [reflexivity|];
+       cbn [step target sv ss]; rewrite U by congruence; cbn [sess_step ph];
+       eexists; eexists; split; [reflexivity|]; cbn [sv ss]; split; [apply U; rewrite U; congruence|];
+       split; reflexivity.
+Qed.
+
+(** * Drain also waits for the deletions of a QUIT *)
+
+(** A session whose QUIT was accepted in TRANSACTION state is past UPDATE only when its marked
+    messages are gone; before its command loop is over it has not committed. *)
+Definition purged (s : session) : Prop :=
+  match ph s with
+  | Ending | Ended => committed s = true -> marked s = true -> left s = 0
+  | PUpdate => True
+  | _ => committed s = false
+  end.
+
+Lemma purged_sess_step pz s a s' inc dec : purged s -> sess_step pz s a = Some (s', inc, dec) -> purged s'.
+Proof.
+  unfold purged. destruct a; cbn [sess_step]; try discriminate.
+  - destruct (ph s) eqn:P; try discriminate. intros H E. inversion E; subst. cbn. exact H.
+  - destruct (rank pz (ph s)) as [a|] eqn:R1; [|discriminate].
+    destruct (rank pz to) as [b|] eqn:R2; [|discriminate]. destruct (a <? b); [|discriminate].
+    intros H E. inversion E; subst. cbn [ph committed].
+    destruct pz, (ph s); cbn in R1; try discriminate; destruct to; cbn in R2; try discriminate; exact H.
+  - destruct (running (ph s)) eqn:R; [|discriminate].
+    destruct (ph s) eqn:P; cbn in R; try discriminate; intros H E; inversion E; subst; cbn; auto; intros; congruence.
+  - destruct (ph s) eqn:P; try discriminate. intros H E. inversion E; subst. cbn. intros _ ->. reflexivity.
+  - destruct (running (ph s)) eqn:R; [|discriminate].
+    destruct (ph s) eqn:P; cbn in R; try discriminate; intros H E; inversion E; subst; cbn; intros; congruence.
+  - destruct (ph s) eqn:P; try discriminate. intros H E. inversion E; subst. cbn. exact H.
+Qed.
+
+Definition all_purged (y : sys) : Prop := forall i s, In (i, s) (ss (sv y)) -> purged s.
+
+Lemma in_upd_s i s' xs j x : In (j, x) (upd_s i s' xs) -> In (j, x) xs \/ x = s'.
+Proof.
+  induction xs as [|[k z] t IH]; cbn [upd_s In]; [tauto|].
+  destruct (Nat.eqb k i); cbn [In].
+  - intros [E|E]; [inversion E; auto|auto].
+  - intros [E|E]; auto. destruct (IH E); auto.
+Qed.
+
+Lemma find_s_in i s xs : find_s i xs = Some s -> In (i, s) xs.
+Proof.
+  induction xs as [|[k z] t IH]; cbn [find_s In]; [discriminate|].
+  destruct (Nat.eqb k i) eqn:E.
+  - apply Nat.eqb_eq in E. subst. intros H. inversion H; auto.
+  - auto.
+Qed.
+
+Lemma all_purged_step y a y' : all_purged y -> step y a = Some y' -> all_purged y'.
+Proof.
+  unfold all_purged. intros C E.
+  assert (Sess : forall i, target a = Some i ->
+            match find_s i (ss (sv y)) with
+            | None => None
+            | Some s =>
+                match sess_step (pr (sv y)) s a with
+                | None => None
+                | Some (s', inc, dec) =>
+                    Some (mkSys (cancelled y) (mkSrv (pr (sv y)) (lopen (sv y)) (wg (sv y) + inc - dec) (upd_s i s' (ss (sv y)))))
+                end
+            end = Some y' -> forall j x, In (j, x) (ss (sv y')) -> purged x).
+  { intros i _ E1. destruct (find_s i (ss (sv y))) as [s|] eqn:F; [|discriminate].
+    destruct (sess_step (pr (sv y)) s a) as [[[s' inc] dec]|] eqn:SS; [|discriminate].
+    inversion E1; subst y'; clear E1. cbn [sv ss]. intros j x H.
+    destruct (in_upd_s _ _ _ _ _ H) as [H1| ->]; [eauto|].
+    eapply purged_sess_step; [|exact SS]. eapply C. eapply find_s_in; eauto. }
+  destruct a; cbn [step] in E; try (eapply Sess; [reflexivity|exact E]).
+  - destruct (lopen (sv y)); [|discriminate]. destruct (find_s i (ss (sv y))); [discriminate|].
+    inversion E; subst y'. cbn [sv ss]. intros j x H. apply in_app_iff in H. destruct H as [H|[H|[]]]; eauto.
+    inversion H; subst. cbn. reflexivity.
+  - inversion E; subst. exact C.
+  - destruct (cancelled y && lopen (sv y)); [|discriminate]. inversion E; subst. exact C.
+Qed.
+
+Lemma all_purged_run acts : forall y y', all_purged y -> run y acts = Some y' -> all_purged y'.
+Proof.
+  induction acts as [|a t IH]; intros y y' C R; cbn [run] in R.
+  - inversion R; subst; auto.
+  - destruct (step y a) eqn:E; [|discriminate]. eapply IH; [|exact R]. eapply all_purged_step; eauto.
+Qed.
+
+(** When Drain returns, every session has ended (drain_exact) AND the marked messages of every
+    session that QUIT in TRANSACTION state have been removed: the deletions are part of the
+    session that Drain waits for, not something left running behind it. *)
+Theorem drain_waits_for_quit_deletes :
+  forall p acts y, run (sys_init p) acts = Some y -> drain_returns y = true ->
+    forall i s, In (i, s) (ss (sv y)) -> committed s = true -> marked s = true -> left s = 0.
+Proof.
+  intros p acts y R D i s H Cm Mk.
+  assert (A : alive s = false) by (eapply (proj1 (drain_exact p acts y R)); eauto).
+  assert (P : purged s). { eapply (all_purged_run acts (sys_init p) y); eauto. intros j x []. }
+  unfold alive in A. unfold purged in P. destruct (ph s); try discriminate. auto.
 Qed.
 
 (** * The retention scanner stops *)
@@ -276,16 +382,16 @@ Definition demo_smtp_state : sys :=
 Example demo_smtp :
   run (sys_init PSmtp) demo_smtp_acts = Some demo_smtp_state
   /\ drain_returns demo_smtp_state = false
-  /\ find_s 1 (ss (sv demo_smtp_state)) = Some (mkS Ended 1 1) /\ wg (sv demo_smtp_state) = 1.
+  /\ find_s 1 (ss (sv demo_smtp_state)) = Some (mkS Ended 1 1 false false) /\ wg (sv demo_smtp_state) = 1.
 Proof. vm_compute. repeat split; reflexivity. Qed.
 
 Definition demo_pop3_acts : list action :=
-  [Accept 1; Begin 1; Client 1 PDele; Cancel; LClose; Quit 1; Exit 1].
+  [Accept 1; Begin 1; Client 1 PDele; Cancel; LClose; Quit 1; Purge 1; Exit 1].
 Definition demo_pop3_state : sys :=
   match run (sys_init PPop3) demo_pop3_acts with Some y => y | None => sys_init PPop3 end.
 
 Example demo_pop3 :
   run (sys_init PPop3) demo_pop3_acts = Some demo_pop3_state
   /\ drain_returns demo_pop3_state = true
-  /\ find_s 1 (ss (sv demo_pop3_state)) = Some (mkS Ended 0 0).
+  /\ find_s 1 (ss (sv demo_pop3_state)) = Some (mkS Ended 0 0 true true).
 Proof. vm_compute. repeat split; reflexivity. Qed.
